@@ -300,7 +300,7 @@ def c05_design_text(inp):
     return text, toks
 
 
-def c05_run_design(sr, work, drv, inp, shrink=True, deadline=None):
+def c05_run_design(sr, work, drv, inp, shrink=True, deadline=None, shrunk=None):
     text, toks = c05_design_text(inp)
     trig = inp.get("trigger")
     expect = G.denote(inp["d"])
@@ -326,6 +326,11 @@ def c05_run_design(sr, work, drv, inp, shrink=True, deadline=None):
     if res["spec"]:
         sig = res["spec"][0]
         d2 = inp["d"]
+        # shrink only the first failure of each signature per shard (the others only count)
+        if shrunk is not None:
+            if sig in shrunk:
+                shrink = False
+            shrunk.add(sig)
         if shrink and (deadline is None or time.time() < deadline):
             def fails(e):
                 t2, _ = G.render(e, random.Random(1), "lower", "tight")
@@ -577,7 +582,7 @@ def c03_eval(work, drv, nl, trigger=None, second_pass=True):
     return res
 
 
-def c03_run_recipe(sr, work, drv, inp, shrink=True, deadline=None):
+def c03_run_recipe(sr, work, drv, inp, shrink=True, deadline=None, shrunk=None):
     trig = inp.get("trigger")
     try:
         nl = build_from_canon(inp["net"])
@@ -600,6 +605,10 @@ def c03_run_recipe(sr, work, drv, inp, shrink=True, deadline=None):
     if res["spec"]:
         sig = res["spec"][0]
         net2 = inp["net"]
+        if shrunk is not None:
+            if sig in shrunk:
+                shrink = False
+            shrunk.add(sig)
         if shrink and (deadline is None or time.time() < deadline):
             def fails(e):
                 try:
@@ -687,6 +696,7 @@ def worker(pid, seed, shard_no, n_cases, tier, t_end, files, boost):
     work = Work()
     drv = lean.Driver("drv_edif")
     rng = random.Random(stable_hash([seed, pid, "shard", shard_no]))
+    shrunk = set()
     try:
         for path in files:
             if time.time() > t_end:
@@ -706,7 +716,7 @@ def worker(pid, seed, shard_no, n_cases, tier, t_end, files, boost):
                 trig = boost["trigger"] if boost else pick_trigger(rng, TRIG05, 0.06)
                 d = G.gen_design(rng, size, trig)
                 inp = {"d": d, "lseed": rng.randrange(1 << 30), "style": None, "mode": None, "trigger": trig}
-                ok = c05_run_design(sr, work, drv, inp, shrink=True, deadline=t_end)
+                ok = c05_run_design(sr, work, drv, inp, shrink=True, deadline=t_end, shrunk=shrunk)
                 if i < 2 and ok:
                     sr.sample({"kind": "design", "text": c05_design_text(inp)[0][:600], "trigger": trig})
             else:
@@ -714,7 +724,7 @@ def worker(pid, seed, shard_no, n_cases, tier, t_end, files, boost):
                 if rng.random() < 0.8 or trig:
                     net = G.gen_recipe(rng, size, trig)
                     inp = {"kind": "recipe", "net": net, "trigger": trig}
-                    ok = c03_run_recipe(sr, work, drv, inp, shrink=True, deadline=t_end)
+                    ok = c03_run_recipe(sr, work, drv, inp, shrink=True, deadline=t_end, shrunk=shrunk)
                     if i < 2 and ok:
                         sr.sample({"kind": "recipe", "view03": G.view03(net)["libraries"] if size == "small" else "…", "trigger": trig})
                 else:
